@@ -205,6 +205,9 @@ func c05Gen(c *Ctx) {
 			if r.Intn(2) == 0 {
 				units = trieOverlong
 				fam = "random-rejected-lead-bytes"
+			} else {
+				units = trieCollide
+				fam = "random-collision-candidates"
 			}
 		}
 		ps := randPatternSet(r, units, 8, 5)
